@@ -62,6 +62,13 @@ impl Decoder for FrameCodec {
         use bytes::Buf;
         use serde_amqp::de::Deserializer;
 
+        // A frame whose size field is smaller than the 8 byte frame header
+        // leaves less than doff, type and the two ignored bytes here
+        if src.len() < 4 {
+            return Err(Error::DecodeError(
+                "Frame is smaller than the frame header".to_string(),
+            ));
+        }
         let doff = src.get_u8();
         let ftype = src.get_u8();
         let _ignored = src.get_u16();
